@@ -193,6 +193,41 @@ def make_fixed(widths, delim_name, maxlen):
     return mk, replay
 
 
+def make_archive_faults():
+    """a broken archive stops reading with a data-format error in every mode (ODS container, S-ZIP / S-XML faults)"""
+    from props.c15 import FakeZipModule, FakeEtModule, ARCHIVE_FAULTS, parse_native, encode_document
+    from xml.etree import ElementTree
+    xml = encode_document([("s", [["a", "b"], ["c", "d"]])])
+    text = "d,format,ods\nf,x\nf,y\n"
+
+    def mk(mode):
+        def h(stage: int, kind: int):
+            from cutplace import rowio, validio, errors
+
+            assume(0 <= stage <= 2 and 1 <= kind <= len(ARCHIVE_FAULTS) - 1)
+            root = parse_native(xml)
+            fault = ARCHIVE_FAULTS[kind]
+            if stage == 2:
+                fault = ElementTree.ParseError("stub") if kind % 2 else ValueError("stub")
+            ok = True
+            for m in MODES:
+                cid = rf.build_cid(text)
+                trip = [rf.smart_repr(),
+                        (rowio, "zipfile", FakeZipModule(fault if stage == 0 else None, fault if stage == 1 else None)),
+                        (rowio, "ElementTree", FakeEtModule(root, fault if stage == 2 else None))]
+                with patched(*trip):
+                    try:
+                        list(validio.rows(cid, "broken.ods", on_error=m))
+                        ok = False
+                    except errors.DataFormatError:
+                        pass
+            return ok, ("stage0", "stage1", "stage2")[stage]
+
+        return h
+
+    return mk
+
+
 def build(tier, seed):
     queries = []
     shapes = [(("ch", "t01"), 2, True), (("t12",), 3, False), (("ch", "t01"), 1, True), (("t12", "t01"), 2, False)]
@@ -216,6 +251,10 @@ def build(tier, seed):
                              "real fixed_rows, widths %r, delimiter %s, every text of length <= %d, all three modes per "
                              "path" % (widths, d, ml), budget_s=600 if tier == "quick" else 2400, per_path_timeout=90,
                              replay=rp, functions=FUNCS, stubs=("S-STREAM", "S-FMT")))
+    queries.append(Query("C06/archive-faults/ods", "modes-archive", make_archive_faults(),
+                         "ODS container: opening the archive / reading content.xml / parsing fails with any documented "
+                         "exception type, in each of the three modes", budget_s=300, expect=("stage0", "stage1", "stage2"),
+                         functions=FUNCS, stubs=("S-ZIP with faults", "S-XML with faults", "S-FMT")))
     return dict(queries=queries, warm=("strip",),
                 assumptions=["container faults are modelled as a DataFormatError raised by the row source after k rows"],
                 outside_claim=["undecodable bytes, unterminated csv quotes, broken archives (C codecs, _csv, zlib)",
